@@ -1,7 +1,7 @@
 (* driver for the C16 model (Model/Channel.v): one case per line
    case <n> (oi|od|fi|fd){n} <tok>*      tok: "/" ends a batch;  s start | r resolve | c<k> cancel |
                                           l<c> lose | g<c> goaway | k kaclose | x Channel.close |
-                                          p<c> pause | u<c> resume | a<k> answer
+                                          p<c> pause | u<c> resume | a<k> answer | h<c> hold (withhold connection_lost)
    answer: one observation per batch, joined by " | ":
      C<creates> F<in flight> P<protocol|-> L<locked> W<waiters> S<state> V<live> [lcd:n,...] {caller,...}
 *)
@@ -14,7 +14,7 @@ let num w = nat_of_int (int_of_string (String.sub w 1 (String.length w - 1)))
 let stim_of w = match w.[0] with
   | 's' -> SStart | 'r' -> SResolve | 'k' -> SKAClose | 'x' -> SChClose
   | 'c' -> SCancel (num w) | 'l' -> SLose (num w) | 'g' -> SGoAway (num w)
-  | 'p' -> SPause (num w) | 'u' -> SResume (num w) | 'a' -> SAnswer (num w)
+  | 'p' -> SPause (num w) | 'u' -> SResume (num w) | 'a' -> SAnswer (num w) | 'h' -> SHold (num w)
   | _ -> failwith "stimulus"
 
 let rec split_batches cur acc = function
